@@ -499,8 +499,9 @@ fn run(case: &RtCase) -> Outcome {
     // still alive belongs to the tasks that are still pending (one operation each)
     {
         let mut live = LIVE_OPS.load(Ordering::SeqCst);
-        let pending = (0..case.tasks.len()).filter(|&i| !lab.done(i)).count() as i64;
         for _ in 0..12 {
+            // a step can finish a task as well as an operation: compare against the tasks pending *now*
+            let pending = (0..case.tasks.len()).filter(|&i| !lab.done(i)).count() as i64;
             if live <= pending {
                 break;
             }
@@ -509,6 +510,12 @@ fn run(case: &RtCase) -> Outcome {
         }
         let pending = (0..case.tasks.len()).filter(|&i| !lab.done(i)).count() as i64;
         if live > pending {
+            if std::env::var("VERIF_DUMP_LOG").is_ok() {
+                for (n, e) in HOOKS.lock().unwrap_or_else(|p| p.into_inner()).iter().enumerate() {
+                    eprintln!("  hook[{n}] {e:?}");
+                }
+                eprintln!("  results: {:?}", lab.results.borrow());
+            }
             return Outcome::violation(
                 format!("C05/rt/cancelled-op-still-in-driver/{drv}"),
                 format!("{live} operations are still alive in the driver although only {pending} tasks are pending: a dropped / cancelled / timed-out operation was not finished"),
@@ -693,6 +700,7 @@ fn check_hook_lifetimes(ev: &[Event], drv: &str) -> Result<(), Outcome> {
                     s.pool_done = true;
                 }
             }
+            Event::PoolSent { .. } => {}
             Event::RingClosed => ring_closed = true,
             Event::OpFree { id } => {
                 frees += 1;
@@ -782,7 +790,7 @@ fn run_c01(case: &RtCase) -> Outcome {
                 // known finding C01/leaked-op/pool-job-outlived-driver (judged by the driver lab): let
                 // thread-pool jobs finish before the runtime goes away
                 {
-                    let open = |ev: &[Event]| ev.iter().filter(|e| matches!(e, Event::Submit { path: SubmitPath::Blocking, .. })).count() as i64 - ev.iter().filter(|e| matches!(e, Event::PoolDone { .. })).count() as i64;
+                    let open = |ev: &[Event]| ev.iter().filter(|e| matches!(e, Event::Submit { path: SubmitPath::Blocking, .. })).count() as i64 - ev.iter().filter(|e| matches!(e, Event::PoolSent { .. })).count() as i64;
                     if open(&HOOKS.lock().unwrap_or_else(|p| p.into_inner())) > 0 {
                         lab.gate.store(true, Ordering::SeqCst);
                         let t0 = Instant::now();
@@ -821,11 +829,11 @@ fn run_c01(case: &RtCase) -> Outcome {
             lab.step(Duration::from_millis(if round < 2 { 0 } else { 20 }));
         }
     }
-    // wait for thread-pool jobs (PoolDone for every Blocking submit), then drop everything
+    // wait for thread-pool jobs (PoolSent for every Blocking submit: the entry was handed back), then drop everything
     let t0 = Instant::now();
     loop {
         let ev = HOOKS.lock().unwrap_or_else(|p| p.into_inner()).clone();
-        let open = ev.iter().filter(|e| matches!(e, Event::Submit { path: SubmitPath::Blocking, .. })).count() as i64 - ev.iter().filter(|e| matches!(e, Event::PoolDone { .. })).count() as i64;
+        let open = ev.iter().filter(|e| matches!(e, Event::Submit { path: SubmitPath::Blocking, .. })).count() as i64 - ev.iter().filter(|e| matches!(e, Event::PoolSent { .. })).count() as i64;
         if open <= 0 {
             break;
         }
@@ -977,6 +985,23 @@ fn main() {
                 TaskSpec { what: What::Accept, stream: 56197, cap: 12544, route: Route::Token(0), pers: 0 },
             ],
             steps: vec![RStep::Spawn, RStep::Step { block: false }, RStep::CancelToken(0), RStep::Connect, RStep::Connect, RStep::Step { block: false }],
+        },
+    ));
+    // found by the thorough tier as a *harness* false alarm (see DESIGN §11): the step that finishes the last
+    // task leaves its cancelled read for the next poll; the operations-alive count must be compared with the
+    // tasks pending after that step, not before it
+    p.regressions.push((
+        "last-task-finishes-one-poll-before-its-cancelled-op",
+        RtCase {
+            iour: true,
+            cap_ix: 0,
+            interval_ix: 0,
+            tasks: vec![
+                TaskSpec { what: What::Read, stream: 0, cap: 0, route: Route::TimeoutMs(80), pers: 0 },
+                TaskSpec { what: What::Read, stream: 0, cap: 0, route: Route::DropOn(1), pers: 0 },
+                TaskSpec { what: What::Read, stream: 0, cap: 0, route: Route::DropOn(0), pers: 0 },
+            ],
+            steps: vec![RStep::Spawn, RStep::Spawn, RStep::Step { block: false }, RStep::FireDrop(0), RStep::Feed { stream: 16221, n: 64849 }],
         },
     ));
     s.run_part(p, strategy(), run);
